@@ -233,7 +233,7 @@ impl FromXml for BinaryAttachment {
         let open_tag = iterator.next().ok_or(XmlParseError::Eof)?;
 
         let mut out = Self::default();
-        let (identifier, compressed) = if let SimpleXmlEvent::Start(ref name, ref attributes) = open_tag {
+        let (identifier, compressed, protected) = if let SimpleXmlEvent::Start(ref name, ref attributes) = open_tag {
             if name != "Binary" {
                 return Err(bad_event("Open Binary tag", open_tag));
             }
@@ -245,13 +245,20 @@ impl FromXml for BinaryAttachment {
                 .map(|v| v.to_lowercase().parse())
                 .unwrap_or(Ok(false))?;
 
-            (identifier, compressed)
+            // a memory-protected attachment of a KDBX3 file is encrypted with the inner stream
+            let protected = attributes
+                .get("Protected")
+                .map(|v| v.to_lowercase().parse())
+                .unwrap_or(Ok(false))?;
+
+            (identifier, compressed, protected)
         } else {
             return Err(bad_event("Open Binary tag", open_tag));
         };
 
         let data = String::from_xml(iterator, inner_cipher)?;
         let buf = base64_engine::STANDARD.decode(&data)?;
+        let buf = if protected { inner_cipher.decrypt(&buf)? } else { buf };
 
         out.identifier = identifier;
         out.compressed = compressed;
